@@ -182,7 +182,7 @@ pub fn sched_run(cfg: &CtrCfg, seqs: &[Vec<u8>], dir: &str, schedule: &[(u64, St
         c.count();
         c.merge(delete);
     });
-    let to = Duration::from_secs(8);
+    let to = Duration::from_secs(30);
     let mut fail: Option<String> = None;
     let steps: Vec<&(u64, String)> = schedule.iter().filter(|s| ["c", "t", "k", "a", "e"].contains(&s.1.as_str())).collect();
     let mut i = 0usize;
